@@ -289,8 +289,8 @@ class LocationDB(object):
             elif offset_loc_key is not None:
                 if name is not None:
                     # Check for already known name are checked above
-                    return self.add_location_name(offset_loc_key, name)
-                # Offset already known, no name specified
+                    self.add_location_name(offset_loc_key, name)
+                # Offset already known: return its (possibly updated) location
                 return offset_loc_key
 
         # No collision, this is a brand new location
